@@ -326,7 +326,7 @@ def run(tier, seed, proof):
         return log.count("LEDGER ") >= 2
     os.environ["IVY_DETECT_LEAKS"] = "1"
     res = l1.run_property(PROP, tier, seed, proof, FAMILIES, [], SANS, nontrivial, RULE + TRYFAIL_RULE + PUMP_RULE + INOTIFY_RULE, n_quick=50, n_thorough=800,
-                          extra_cases=lambda tier, seed: [c for c in loopgen.retract_cases(seed) if c[0].startswith(("tryfail", "reregister"))])
+                          extra_cases=lambda tier, seed: [c for c in loopgen.retract_cases(seed) if c[0].startswith(("tryfail", "reregister"))] + loopgen.alias_cases())
     # ledger oracle on the cycles family (re-run deterministically; cheap)
     per = 50 if tier == "quick" else 800
     cases = [(f"cycles-{seed * 100000 + i}", loopgen.scenario(seed * 100000 + i, family="cycles")) for i in range(per)]
